@@ -202,7 +202,9 @@ func coveredFPs(doc []byte, roots []*x509.Certificate, now time.Time) map[string
 		}
 	}
 	for _, ea := range findNS(d.Root(), samlgen.NSAssertion, "EncryptedAssertion") {
-		eds := findNS(ea, xenc.NSXenc, "EncryptedData")
+		// the ciphertext of an EncryptedAssertion is its own EncryptedData child (not one nested deeper, e.g. inside another
+		// EncryptedAssertion planted in it)
+		eds := childNS(ea, xenc.NSXenc, "EncryptedData")
 		if len(eds) == 0 {
 			continue
 		}
@@ -998,6 +1000,63 @@ func c01Ops(p *c01Pool) []c01Op {
 		}
 	}
 
+	// 8b. a ciphertext of the attacker's own (the evil assertion encrypted to the SP's public certificate) planted where no signature covers
+	// it - inside a Signature element (the enveloped transform removes that), inside its Object, before / after everything else in the
+	// Response - as a bare EncryptedData and as a whole EncryptedAssertion: whatever the SP decrypts must be the ciphertext inside the
+	// EncryptedAssertion it is processing
+	for _, whole := range []bool{false, true} {
+		for _, where := range []string{"Signature-first", "Signature-last", "Signature-Object", "Response-first", "Response-last", "EncryptedAssertion-first"} {
+			whole, where := whole, where
+			nm := "bare-EncryptedData"
+			if whole {
+				nm = "EncryptedAssertion"
+			}
+			add("plant-attacker-ciphertext/"+nm+"/"+where, func(root *etree.Element, p *c01Pool) bool {
+				var planted *etree.Element = encryptEl(p.unsignedE, "", "", "plant"+where)
+				if !whole {
+					eds := findNS(planted, "http://www.w3.org/2001/04/xmlenc#", "EncryptedData")
+					if len(eds) == 0 {
+						return false
+					}
+					planted = eds[0].Copy()
+					planted.CreateAttr("xmlns:xenc", "http://www.w3.org/2001/04/xmlenc#")
+					planted.CreateAttr("xmlns:ds", samlgen.NSDsig)
+				}
+				r := theResponse(root)
+				if r == nil {
+					return false
+				}
+				n := 0
+				switch where {
+				case "Signature-first", "Signature-last", "Signature-Object":
+					for _, sg := range findNS(root, samlgen.NSDsig, "Signature") {
+						switch where {
+						case "Signature-first":
+							sg.InsertChildAt(0, planted.Copy())
+						case "Signature-last":
+							sg.AddChild(planted.Copy())
+						default:
+							sg.CreateElement("ds:Object").AddChild(planted.Copy())
+						}
+						n++
+					}
+				case "Response-first":
+					r.InsertChildAt(0, planted)
+					n++
+				case "Response-last":
+					r.AddChild(planted)
+					n++
+				case "EncryptedAssertion-first":
+					for _, ea := range findNS(root, samlgen.NSAssertion, "EncryptedAssertion") {
+						ea.InsertChildAt(0, planted.Copy())
+						n++
+					}
+				}
+				return n > 0
+			})
+		}
+	}
+
 	// 9. deletions
 	add("delete/all-signatures", func(root *etree.Element, p *c01Pool) bool {
 		sigs := findNS(root, samlgen.NSDsig, "Signature")
@@ -1608,6 +1667,15 @@ func c01ArtifactEnvelopes(c *core.Ctx, pool *c01Pool, sps map[string]*saml.Servi
 		name string
 		f    func(env *etree.Element) bool
 	}
+	// the evil assertion encrypted to the SP's certificate by the attacker, as a bare EncryptedData element
+	attackerED := func() *etree.Element {
+		det, _ := detach(pool.unsignedE)
+		ea := harness.EncryptAssertionEl(samlgen.Doc(det), spKey(), "artenv-plant")
+		ed := findNS(ea, "http://www.w3.org/2001/04/xmlenc#", "EncryptedData")[0].Copy()
+		ed.CreateAttr("xmlns:xenc", "http://www.w3.org/2001/04/xmlenc#")
+		ed.CreateAttr("xmlns:ds", samlgen.NSDsig)
+		return ed
+	}
 	arOf := func(env *etree.Element) *etree.Element {
 		if x := findNS(env, samlgen.NSProtocol, "ArtifactResponse"); len(x) > 0 {
 			return x[0]
@@ -1767,6 +1835,36 @@ func c01ArtifactEnvelopes(c *core.Ctx, pool *c01Pool, sps map[string]*saml.Servi
 			samlgen.Sign(ar, samlgen.Key("lookalike1"), "")
 			return true
 		}},
+		{"attacker-EncryptedData-in-soap-Header", func(env *etree.Element) bool {
+			h := etree.NewElement("soap:Header")
+			h.AddChild(attackerED())
+			env.InsertChildAt(0, h)
+			return true
+		}},
+		{"attacker-EncryptedData-first-in-soap-Body", func(env *etree.Element) bool {
+			ar := arOf(env)
+			if ar == nil {
+				return false
+			}
+			ar.Parent().InsertChildAt(0, attackerED())
+			return true
+		}},
+		{"attacker-EncryptedData-in-envelope-Signature", func(env *etree.Element) bool {
+			s := sigOf(env)
+			if s == nil {
+				return false
+			}
+			s.InsertChildAt(0, attackerED())
+			return true
+		}},
+		{"attacker-EncryptedData-in-inner-Response-Signature", func(env *etree.Element) bool {
+			r := realResp(env)
+			if r == nil || firstSig(r) == nil {
+				return false
+			}
+			firstSig(r).InsertChildAt(0, attackerED())
+			return true
+		}},
 		{"second-ArtifactResponse-unsigned-with-forged-first-in-Body", func(env *etree.Element) bool {
 			ar := arOf(env)
 			if ar == nil {
@@ -1797,6 +1895,8 @@ func c01ArtifactEnvelopes(c *core.Ctx, pool *c01Pool, sps map[string]*saml.Servi
 		{"envelope-signed/inner-Response-signed", func() *etree.Element { return mkEnv(harness.Layout{SignResponse: true}, true) }},
 		{"envelope-signed/inner-Assertion-signed", func() *etree.Element { return mkEnv(harness.Layout{SignAssertion: true}, true) }},
 		{"envelope-unsigned/inner-Response-signed", func() *etree.Element { return mkEnv(harness.Layout{SignResponse: true}, false) }},
+		{"envelope-signed/inner-unsigned-encrypted", func() *etree.Element { return mkEnv(harness.Layout{Encrypt: true}, true) }},
+		{"envelope-unsigned/inner-Response-signed-encrypted", func() *etree.Element { return mkEnv(harness.Layout{SignResponse: true, Encrypt: true}, false) }},
 	}
 	none := eop{"none", func(*etree.Element) bool { return true }}
 	for _, in := range inits {
